@@ -53,3 +53,14 @@ package ledger
 //@   nobody
 //@ func NewBlockHeaderFromCbor(blockType, data) (h, err)
 //@   nobody
+
+// C22 / C36: the two era tables used to map a served block's type to the header era and back are
+// mutually inverse, both have exactly seven entries (Shelley .. Dijkstra), and distinct keys map to
+// distinct values. The package initialiser is straight-line and input-free.
+//@ func init()
+//@   props C22 C36
+//@   attr safe off
+//@   requires first: !init$guard
+//@   ensures inverse1: forall h uint :: h in BlockHeaderToBlockTypeMap ==> BlockHeaderToBlockTypeMap[h] in BlockToBlockHeaderTypeMap && BlockToBlockHeaderTypeMap[BlockHeaderToBlockTypeMap[h]] == h
+//@   ensures inverse2: forall b uint :: b in BlockToBlockHeaderTypeMap ==> BlockToBlockHeaderTypeMap[b] in BlockHeaderToBlockTypeMap && BlockHeaderToBlockTypeMap[BlockToBlockHeaderTypeMap[b]] == b
+//@   ensures seven: len(BlockHeaderToBlockTypeMap) == 7 && len(BlockToBlockHeaderTypeMap) == 7
